@@ -17,6 +17,7 @@
 import readline from 'node:readline';
 import vm from 'node:vm';
 import path from 'node:path';
+import { pathToFileURL } from 'node:url';
 
 function stripTypes(rel, text) {
   let t = text;
@@ -43,7 +44,7 @@ function stripTypes(rel, text) {
 // ---------------------------------------------------------------------------------------------
 class SyntaxErr extends Error {}
 
-function makeLoader(files) {
+export function makeLoader(files, stubFactory) {
   const cache = new Map();       // rel -> {default}
   const loading = new Set();
   const pathOfFn = new Map();    // default-export value -> rel (identity of artifacts)
@@ -77,7 +78,7 @@ function makeLoader(files) {
           if (n === '' || n.startsWith('type ')) continue;
           const local = n.includes(' as ') ? n.split(' as ')[1].trim() : n;
           if (inside) continue;                         // a type exported by another artifact
-          if (spec.startsWith('.')) out.push(`const ${local} = __stub(${JSON.stringify(spec + '#' + n)});`);
+          if (spec.startsWith('.')) out.push(`const ${local} = __stub(${JSON.stringify(spec + '#' + n)}, ${JSON.stringify(rel)});`);
           else out.push(`const ${local} = undefined;`);
         }
         continue;
@@ -90,7 +91,8 @@ function makeLoader(files) {
     return out.join('\n').replace(/\bimport\(/g, '__dynimport(');
   }
 
-  function stub(what) {
+  function stub(what, rel) {
+    if (stubFactory) return stubFactory(what, rel);
     const f = function userCodeStub() { return null; };
     f.__stub = what;
     return f;
@@ -341,7 +343,10 @@ function handle(req) {
   }
 }
 
-if (process.argv[2] === '--dir') {
+const isMain = process.argv[1] && import.meta.url === pathToFileURL(process.argv[1]).href;
+if (!isMain) {
+  // imported as a library (ops_runtime.mjs)
+} else if (process.argv[2] === '--dir') {
   // debugging aid: node ops_eval.mjs --dir <artifact dir> [values|graph]
   const fs = await import('node:fs');
   const root = process.argv[3];
